@@ -198,6 +198,7 @@ struct Ctx {
   std::string replay_dir = ".";
   std::string out_path, hashes_path, target = "?";
   std::vector<Sub> subs;
+  std::map<std::string, double> metrics;  // named maxima (calibration numbers), merged by max in the driver
   // crash bookkeeping
   char cur_sub[128] = {0};
   std::string cur_case;
@@ -206,6 +207,12 @@ struct Ctx {
 inline Ctx &ctx() {
   static Ctx c;
   return c;
+}
+
+inline void metric_max(const std::string &name, double v) {
+  auto &m = ctx().metrics;
+  auto it = m.find(name);
+  if (it == m.end() || v > it->second) m[name] = v;
 }
 
 inline void death_callback() {
@@ -375,7 +382,15 @@ inline void write_json(const std::string &path, const std::vector<std::pair<std:
   for (size_t i = 0; i < viol.size(); i++)
     f << (i ? ", " : "") << "{\"sub\": \"" << jesc(viol[i].first) << "\", \"replay\": \"" << jesc(viol[i].second)
       << "\"}";
-  f << "]" << extra_json << "\n}\n";
+  f << "],\n \"metrics\": {";
+  {
+    bool fm = true;
+    for (const auto &kv : c.metrics) {
+      f << (fm ? "" : ", ") << "\"" << jesc(kv.first) << "\": " << kv.second;
+      fm = false;
+    }
+  }
+  f << "}" << extra_json << "\n}\n";
 }
 
 // returns process exit code: 0 ok, 1 violation candidate(s) found, 2 usage
